@@ -157,7 +157,12 @@ impl Package {
                     }
                     std::os::unix::fs::symlink(&file.metadata.linkto, &file_path)?;
                 }
-                _ => unreachable!("Encountered an unknown or invalid FileMode"),
+                mode => {
+                    return Err(Error::InvalidFileMode {
+                        raw_mode: mode.raw_mode().into(),
+                        reason: "only regular files, directories and symbolic links can be extracted",
+                    });
+                }
             }
         }
 
